@@ -49,6 +49,14 @@ func VP_C08_Reset() {
 	}
 	vpOK(zzvp.Run("commit", "-m", "c2"))
 	second, _, _ := vpBranch("main")
+	// earlier switches / an earlier reset leave journal entries of other kinds before the reset under test
+	switch zzvp.Choose(zzvp.Param("histories", 3)) {
+	case 1:
+		vpOK(zzvp.Run("switch", "-c", "topic"))
+		vpOK(zzvp.Run("switch", "main"))
+	case 2:
+		vpOK(zzvp.Run("reset", "--soft", "HEAD@{0}"))
+	}
 	// perturb the work tree
 	untracked := w + "/" + vpComp("un", 1) + ".u"
 	zzvp.WriteFile(untracked, []byte("U"))
@@ -78,7 +86,7 @@ func VP_C08_Reset() {
 		arg = zzvp.Str("pre", zzvp.Choose(2), "HEAD@{}0-9x") + "HEAD@{" + zzvp.Str("d2", 1, "0-9") + "}" + zzvp.Str("suf", zzvp.Choose(2), "HEAD@{}0-9x")
 		zzvp.Assume(len(arg) > 8)
 	case 0:
-		pos = zzvp.Choose(3)
+		pos = zzvp.Choose(5)
 		arg = "HEAD@{" + string(rune('0'+pos)) + "}"
 	case 1:
 		arg = "HEAD@{" + zzvp.Str("digit", 1, "0-9") + "}"
@@ -108,6 +116,9 @@ func VP_C08_Reset() {
 	zzvp.Assert(vpHeadRef() == "main", "HEAD keeps naming the same branch")
 	dev, _, _ := vpBranch("dev")
 	zzvp.Assert(string(dev) == string(first), "every other branch is unchanged")
+	if topic, exists, _ := vpBranch("topic"); exists {
+		zzvp.Assert(string(topic) == string(second), "every other branch is unchanged (also one created by an earlier switch -c)")
+	}
 	_ = second
 	// the target snapshot, by the independent decoder
 	_, cdata, _ := vpReadObject(g, tip)
